@@ -137,6 +137,7 @@ CHECKS = {
         "assumptions": ["every handler counted as 'entered' has signalled entry before Close is invoked; calls issued after Close began are only required to complete exactly once",
                         "after a connection loss a session cancels its pending calls once its own running handlers finished; completion is therefore awaited after all releases"],
         "runs": [
+            {"pkg": "core", "run": "^TestC08WebsocketClose$", "quick": 300, "thorough": 10000, "shards_thorough": 4},
             {"pkg": "core", "run": "^TestC08GracefulClose$", "quick": 1000, "thorough": 40000, "shards_thorough": 8},
         ],
     },
